@@ -240,6 +240,8 @@ package termincommittee
 //@   ensures [sound.height] result == nil ==> (forall k :: 0 <= k && k < len(confirmations) ==> confirmations[k].SignedHeader().BlockHeight() == targetBlockHeight)
 //@   ensures [sound.view] result == nil ==> (forall k :: 0 <= k && k < len(confirmations) ==> confirmations[k].SignedHeader().View() == targetView)
 //@   ensures [sound.distinct] result == nil ==> (forall j, k :: 0 <= j && j < k && k < len(confirmations) ==> confirmations[j].Sender().MemberId() != confirmations[k].Sender().MemberId())
+//@   ensures [sound.signed] result == nil ==> (forall k :: 0 <= k && k < len(confirmations) ==> confirmations[k].SignedHeader().MessageType() == protocol.LEAN_HELIX_VIEW_CHANGE
+//@     | && VerifiedMsg(tic.keyManager, confirmations[k].SignedHeader().BlockHeight(), confirmations[k].SignedHeader().Raw(), confirmations[k].Sender().MemberId(), confirmations[k].Sender().Signature()))
 //@   loop range confirmations
 //@     invariant [senders] len(senders) == len(confirmations) && (forall k :: 0 <= k && k < $i ==> senders[k] == confirmations[k].Sender().MemberId())
 //@   loop range confirmations
@@ -247,6 +249,8 @@ package termincommittee
 //@     invariant [height] forall k :: 0 <= k && k < $i ==> confirmations[k].SignedHeader().BlockHeight() == targetBlockHeight
 //@     invariant [view] forall k :: 0 <= k && k < $i ==> confirmations[k].SignedHeader().View() == targetView
 //@     invariant [distinct] forall j, k :: 0 <= j && j < k && k < $i ==> confirmations[j].Sender().MemberId() != confirmations[k].Sender().MemberId()
+//@     invariant [signed] forall k :: 0 <= k && k < $i ==> confirmations[k].SignedHeader().MessageType() == protocol.LEAN_HELIX_VIEW_CHANGE
+//@       | && VerifiedMsg(tic.keyManager, confirmations[k].SignedHeader().BlockHeight(), confirmations[k].SignedHeader().Raw(), confirmations[k].Sender().MemberId(), confirmations[k].Sender().Signature())
 
 // a vote (VIEW_CHANGE content) is authentic and its prepared proof, if any, is valid for (height, its view)
 //@ pred ProofOK(tic *TermInCommittee, p *protocol.PreparedProof, h primitives.BlockHeight, v primitives.View) = (p == nil || len(p.Raw()) == 0) ||
@@ -272,6 +276,7 @@ package termincommittee
 //@   props C07 C08 C09
 //@   requires TicOK(tic) && vcm != nil
 //@   ensures [sound.signed] result == nil ==> VerifiedMsg(tic.keyManager, vcm.SignedHeader().BlockHeight(), vcm.SignedHeader().Raw(), vcm.Sender().MemberId(), vcm.Sender().Signature())
+//@   ensures [sound.signed-type] result == nil ==> vcm.SignedHeader().MessageType() == protocol.LEAN_HELIX_VIEW_CHANGE
 //@   ensures [sound.proof] result == nil ==> ProofOK(tic, vcm.SignedHeader().PreparedProof(), tic.State.height, vcm.SignedHeader().View())
 //@   assert before call ValidatePreparedProof [committee-argument-is-term-committee] $committeeMembers == tic.committeeMembers && $keyManager == tic.keyManager
 
@@ -325,6 +330,7 @@ package termincommittee
 //@   | && ProofOK(tic, vcm.content.SignedHeader().PreparedProof(), vcm.content.SignedHeader().BlockHeight(), vcm.content.SignedHeader().View())
 //@   | && (vcm.content.SignedHeader().PreparedProof() != nil && len(vcm.content.SignedHeader().PreparedProof().Raw()) > 0 ==>
 //@   |      vcm.block != nil && Commits(tic.blockUtils, vcm.content.SignedHeader().BlockHeight(), vcm.block, vcm.content.SignedHeader().PreparedProof().PreprepareBlockRef().BlockHash()))
+//@   | && (vcm.block != nil ==> vcm.content.SignedHeader().PreparedProof() != nil && len(vcm.content.SignedHeader().PreparedProof().Raw()) > 0)
 
 //@ iface interfaces.Storage.StoreViewChange
 //@   requires [O8.4.verified] vcm != nil && vcm.content != nil && VerifiedMsg(caller.keyManager, vcm.content.SignedHeader().BlockHeight(), vcm.content.SignedHeader().Raw(), vcm.content.Sender().MemberId(), vcm.content.Sender().Signature())
@@ -336,6 +342,7 @@ package termincommittee
 //@   requires [O8.4.valid-proof] ProofOK(caller, vcm.content.SignedHeader().PreparedProof(), vcm.content.SignedHeader().BlockHeight(), vcm.content.SignedHeader().View())
 //@   requires [O8.4.proof-comes-with-its-block] vcm.content.SignedHeader().PreparedProof() != nil && len(vcm.content.SignedHeader().PreparedProof().Raw()) > 0 ==>
 //@     | vcm.block != nil && Commits(caller.blockUtils, vcm.content.SignedHeader().BlockHeight(), vcm.block, vcm.content.SignedHeader().PreparedProof().PreprepareBlockRef().BlockHash())
+//@   requires [O8.4.block-comes-with-its-proof] vcm.block != nil ==> vcm.content.SignedHeader().PreparedProof() != nil && len(vcm.content.SignedHeader().PreparedProof().Raw()) > 0
 //@   modifies ghost:vcver
 //@   ensures vcver == old(vcver) + 1
 
@@ -350,3 +357,44 @@ package termincommittee
 //@   inv GhostInv(tic)
 //@   requires [FilterOK] vcm != nil && vcm.content != nil && vcm.content.SignedHeader().BlockHeight() == tic.State.height && vcm.content.Sender().MemberId() != tic.myMemberId
 //@   modifies @TIC
+
+// the election path of the leader-to-be
+//@ func (*TermInCommittee).checkElected
+//@   props C07 C09 C10
+//@   requires TicOK(tic)
+//@   inv GhostInv(tic)
+//@   requires height == tic.State.height
+//@   requires [i-am-the-leader-of-that-view] tic.myMemberId == LeaderOf(tic.committeeMembers, view)
+//@   modifies @TIC
+//@   loop range vcms
+//@     invariant [ids] len(senderIds) == len(vcms) && (forall k :: 0 <= k && k < $i ==> senderIds[k] == vcms[k].content.Sender().MemberId())
+//@     invariant [frame] tic.State == old(tic.State) && tic.State.view == old(tic.State.view) && tic.State.height == old(tic.State.height) && tic.latestViewThatProcessedVCMOrNVM == old(tic.latestViewThatProcessedVCMOrNVM) && tic.committedBlock == old(tic.committedBlock) && ncommitted == old(ncommitted) && vcver == old(vcver)
+//@     invariant [ghost-frame] forall gv int :: ppStored[gv] == old(ppStored[gv]) && ppHash[gv] == old(ppHash[gv]) && sentPrepare[gv] == old(sentPrepare[gv]) && sentCommit[gv] == old(sentCommit[gv]) && sentPrepareHash[gv] == old(sentPrepareHash[gv]) && sentCommitHash[gv] == old(sentCommitHash[gv]) && proposed[gv] == old(proposed[gv])
+
+//@ func (*TermInCommittee).onElectedByViewChange
+//@   props C07 C09 C10 C04
+//@   requires TicOK(tic)
+//@   inv GhostInv(tic)
+//@   requires [O7.6.i-am-the-leader-of-that-view] tic.myMemberId == LeaderOf(tic.committeeMembers, view)
+//@   requires [O7.6.not-yet-elected-for-that-view] tic.latestViewThatProcessedVCMOrNVM < view
+//@   requires [O7.6.votes-authentic-for-this-height-and-view] forall k :: 0 <= k && k < len(viewChangeMessages) ==> VoteOK(tic, viewChangeMessages[k])
+//@     | && viewChangeMessages[k].content.SignedHeader().BlockHeight() == tic.State.height && viewChangeMessages[k].content.SignedHeader().View() == view
+//@   requires [O7.6.votes-from-distinct-senders] forall j, k :: 0 <= j && j < k && k < len(viewChangeMessages) ==> viewChangeMessages[j].content.Sender().MemberId() != viewChangeMessages[k].content.Sender().MemberId()
+//@   requires [O7.6.votes-reach-quorum] exists ids []primitives.MemberId :: len(ids) == len(viewChangeMessages) && (forall k :: 0 <= k && k < len(viewChangeMessages) ==> ids[k] == viewChangeMessages[k].content.Sender().MemberId())
+//@     | && SW(ids, tic.committeeMembers, len(tic.committeeMembers)) >= Qz(SumMW(tic.committeeMembers, len(tic.committeeMembers)))
+//@   modifies @TIC
+
+// A-SORT + body: trusted until the sort.Slice ordering model lands. The block (and hash) of a vote that has a block
+// and whose proof view is maximal among the votes that have a block; (nil, nil) when no vote has a block.
+//@ dep blockextractor.GetLatestBlockFromViewChangeMessages
+//@   params messages
+//@   ensures [none] result0 == nil ==> (forall k :: 0 <= k && k < len(messages) ==> messages[k].block == nil)
+//@   ensures [chosen] result0 != nil ==> (exists k :: 0 <= k && k < len(messages) && messages[k].block == result0 && messages[k].block != nil
+//@     | && result1 == messages[k].content.SignedHeader().PreparedProof().PrepareBlockRef().BlockHash()
+//@     | && (forall j :: 0 <= j && j < len(messages) && messages[j].block != nil ==>
+//@     |      messages[j].content.SignedHeader().PreparedProof().PreprepareBlockRef().View() <= messages[k].content.SignedHeader().PreparedProof().PreprepareBlockRef().View()))
+
+// field-by-field re-encoding of the votes (verified under C20); here only: one confirmation per vote
+//@ dep interfaces.ExtractConfirmationsFromViewChangeMessages
+//@   params vcms
+//@   ensures len(result) == len(vcms)
